@@ -22,6 +22,7 @@ mod sched;
 mod sim_arena;
 mod sim_cache;
 mod sim_io;
+mod sim_lazy;
 mod sinks;
 mod supervise;
 mod trace;
@@ -39,6 +40,12 @@ pub static SIMS: &[SimDef] = &[SimDef {
     prop: "C16",
     run: sim_arena::run,
     about: "values sharing a parsed arena under clone / take / insert / send / drop orders across 1-3 threads",
+    enumerate: None,
+}, SimDef {
+    name: "lazy",
+    prop: "C13",
+    run: sim_lazy::run,
+    about: "lazy and owned-lazy values as faithful views under histories of reads, clones, conversions and mutations",
     enumerate: None,
 }, SimDef {
     name: "io",
